@@ -422,6 +422,41 @@ theorem untrusted_consumers_noninterference (N : Net Addr Prefix) (cfg : Cfg Pre
   unfold serveConsumers
   rw [untrusted_client_ip N cfg c w hs, untrusted_client_ip N cfg c w' hs]
 
+/-- **0-RTT data never matches.** While the TLS handshake is not complete the peer's address cannot be
+    verified: both matchers refuse to match, whatever the ranges, the address and the headers. -/
+theorem early_data_never_matches (N : Net Addr Prefix) (cfg : Cfg Prefix) (ranges : List (MRange Prefix))
+    (c : Conn) (w : List (Bytes × Bytes)) (he : c.earlyData = true) :
+    (serveConsumers N cfg ranges c w).clientMatch = false ∧
+    (serveConsumers N cfg ranges c w).remoteMatch = false := by
+  simp [serveConsumers, consumers, he]
+
+/-! ## the `Connection` header cannot make the proxy's own fields disappear -/
+
+/-- **a client cannot smuggle `Connection: X-Forwarded-For` to have caddy's own header dropped.**
+    The fields named by `Connection` (and the hop-by-hop list) are removed BEFORE `addForwardedHeaders`
+    writes: for every peer with a usable address — trusted or not —, every header list (whatever its
+    `Connection` fields name), if no earlier handler pre-set a field to nil then X-Forwarded-For,
+    -Proto and -Host are all sent upstream, each with exactly one value. -/
+theorem forwarding_fields_always_sent (N : Net Addr Prefix) (cfg : Cfg Prefix) (c : Conn)
+    (w : List (Bytes × Bytes)) (ip : Addr) (hp : peerAddr N c = some ip)
+    (h1 : cfg.omitXFF = false) (h2 : cfg.omitXFP = false) (h3 : cfg.omitXFH = false) :
+    ∃ f, (serve N cfg c w).fwd = some f ∧ Sent f.xff ∧ Sent f.xfp ∧ Sent f.xfh := by
+  cases ht : peerTrusted N cfg c with
+  | true =>
+    obtain ⟨host, _, hf⟩ := trusted_fields N cfg c w ht
+    rw [h1, h2, h3] at hf
+    exact ⟨_, hf, specField_sent _ _ _ _ _, specField_sent _ _ _ _ _, specField_sent _ _ _ _ _⟩
+  | false =>
+    rw [untrusted_serve_eq N cfg c w ht]
+    unfold peerAddr at hp
+    unfold untrustedOut
+    cases hr : remoteHost c with
+    | none => simp [hr] at hp
+    | some host =>
+      simp only [hr] at hp ⊢
+      simp only [hp, h1, h2, h3, Bool.false_and, Bool.false_eq_true, if_false]
+      exact ⟨_, rfl, ⟨_, rfl⟩, ⟨_, rfl⟩, ⟨_, rfl⟩⟩
+
 /-! ## retried attempts -/
 
 /-- **every attempt sends the same forwarding fields.** However many upstream round trips fail and are
@@ -447,6 +482,23 @@ theorem retried_attempts_untrusted (N : Net Addr Prefix) (cfg : Cfg Prefix) (c :
     serveAttempts N cfg c w ops fails = serveAttempts N cfg c w' ops fails := by
   rw [every_attempt_sends_the_same_forwarded_headers, every_attempt_sends_the_same_forwarded_headers,
     untrusted_forwarding_headers_irrelevant N cfg c w w' hu hc]
+
+/-- … and on every attempt of the retry loop (the operator's own `header_up -X-Forwarded-Host` aside) -/
+theorem forwarding_fields_sent_on_every_attempt (N : Net Addr Prefix) (cfg : Cfg Prefix) (c : Conn)
+    (w : List (Bytes × Bytes)) (ip : Addr) (ops : Ops) (fails : Nat) (hp : peerAddr N c = some ip)
+    (h1 : cfg.omitXFF = false) (h2 : cfg.omitXFP = false) (h3 : cfg.omitXFH = false) :
+    ∃ l, serveAttempts N cfg c w ops fails = some l ∧ l.length = fails + 1 ∧
+      ∀ a, a ∈ l → Sent a.xff ∧ Sent a.xfp ∧ (ops ≠ .delXFH → Sent a.xfh) := by
+  obtain ⟨f, hf, s1, s2, s3⟩ := forwarding_fields_always_sent N cfg c w ip hp h1 h2 h3
+  rw [every_attempt_sends_the_same_forwarded_headers, hf]
+  refine ⟨_, rfl, by simp, ?_⟩
+  intro a ha
+  have : a = opsFwd ops f := List.eq_of_mem_replicate ha
+  subst this
+  cases ops
+  · exact ⟨s1, s2, fun _ => s3⟩
+  · exact ⟨dropNil_sent s1, dropNil_sent s2, fun _ => dropNil_sent s3⟩
+  · exact ⟨dropNil_sent s1, dropNil_sent s2, fun h => absurd rfl h⟩
 
 /-! ## facts regenerated from the source on every run (tools/extract → Gen/Forwarding.lean) -/
 
@@ -573,8 +625,8 @@ def exStrict : Cfg Bytes := { exCfg with strict := 1 }
 /-- no server-level source, reverse_proxy trusts 10.0.0.0/8 itself -/
 def exHandler : Cfg Bytes := { exCfg with srvTrusted := none, handlerTrusted := [b!"10."] }
 
-def exUntrusted : Conn := ⟨b!"[fe80::1%eth0]:51234", true, b!"example.com"⟩
-def exTrusted : Conn := ⟨b!"10.0.0.1:443", false, b!"example.com"⟩
+def exUntrusted : Conn := ⟨b!"[fe80::1%eth0]:51234", true, b!"example.com", false⟩
+def exTrusted : Conn := ⟨b!"10.0.0.1:443", false, b!"example.com", false⟩
 
 /-- multi-valued, port-bearing, malformed, mixed-case forwarding headers -/
 def exHeaders : List (Bytes × Bytes) :=
@@ -600,8 +652,8 @@ example : wireValues exHeaders kConnection = wireValues ([] : List (Bytes × Byt
 example : serverTrusts toyNet exHandler exTrusted = false ∧ peerTrusted toyNet exHandler exTrusted = true := by decide
 -- unparsable_remote_strips_headers / non_ip_remote_refused
 example : splitHostPort b!"/run/caddy.sock" = none := by decide
-example : serve toyNet exCfg ⟨b!"/run/caddy.sock", false, b!"h"⟩ exHeaders = ⟨[], false, some ⟨none, none, none⟩⟩ := by decide
-example : remoteHost ⟨b!"example.com:80", false, b!"h"⟩ = some b!"example.com" ∧ toyNet.parseAddr b!"example.com" = none := by
+example : serve toyNet exCfg ⟨b!"/run/caddy.sock", false, b!"h", false⟩ exHeaders = ⟨[], false, some ⟨none, none, none⟩⟩ := by decide
+example : remoteHost ⟨b!"example.com:80", false, b!"h", false⟩ = some b!"example.com" ∧ toyNet.parseAddr b!"example.com" = none := by
   decide
 -- trusted_leftmost_valid: "junk" is skipped, "9.9.9.9:1234 " (port, trailing blank) is the left-most valid element
 example : serverTrusts toyNet exCfg exTrusted = true ∧ exCfg.strict = 0 := by decide
@@ -658,6 +710,18 @@ example : adaptOptions [[b!"8.8.8.8"], [b!"private_ranges", b!"203.0.113.0/24"]]
 example : adaptOptions [] 0 false [[b!"X-Real-IP"], [b!"X-Real-IP"]] [] = none ∧
     ¬ ([[b!"X-Real-IP"], [b!"X-Real-IP"]] : List (List Bytes)).flatten.Nodup := by decide
 example : adaptOptions [] 0 false [] [] = some ⟨none, false, none, [], phClientIP⟩ := by decide
+-- early_data_never_matches / forwarding_fields_always_sent: a 0-RTT request from 10.0.0.1 naming all three
+-- fields in Connection — nothing matches, all three fields are sent on both attempts
+def exEarly : Conn := ⟨b!"10.0.0.1:443", true, b!"example.com", true⟩
+def exSmuggle : List (Bytes × Bytes) :=
+  [(b!"Connection", b!"X-Forwarded-For, x-forwarded-proto"), (b!"connection", b!"X-Forwarded-Host"),
+   (b!"X-Forwarded-For", b!"6.6.6.6")]
+example : (serveConsumers toyNet exCfg exRanges exEarly exSmuggle).clientMatch = false ∧
+    matchAddress toyNet exRanges exEarly.remoteAddr = true := by decide
+example : peerAddr toyNet exEarly = some b!"10.0.0.1" ∧
+    serveAttempts toyNet exCfg exEarly exSmuggle .none 1 =
+      some (List.replicate 2 ⟨some (some [b!"10.0.0.1"]), some (some [b!"https"]), some (some [b!"example.com"])⟩) := by
+  decide
 -- elements_are_per_value
 example : elements [b!"a,b", b!"", b!"c"] = [b!"a", b!"b", b!"", b!"c"] := by decide
 -- trimSpace_never_runs_out_of_fuel: NBSP, EM SPACE and ASCII blanks around an address
